@@ -103,13 +103,13 @@ theorem far_le (s : State) : s.far ≤ s.n := by
   have := cwDist_lt s.n (s.action.getD 0) p (List.mem_range.1 hp)
   split <;> omega
 
-theorem cannotAct_eq (s : State) (p : Nat) : s.cannotAct p = !s.live p := by
+theorem cannotAct_eq_live (s : State) (p : Nat) : s.cannotAct p = !s.live p := by
   unfold State.cannotAct State.live liveSeat folded State.isAllIn
   cases h1 : (getI s.stacks p == 0) <;> cases h2 : ((s.lastActions[p]?).join == some ActType.fold) <;>
     simp [bne, h1]
 
 theorem pend_live {s : State} {p : Nat} (h : s.pend p = true) : s.cannotAct p = false := by
-  rw [cannotAct_eq]
+  rw [cannotAct_eq_live]
   unfold State.pend at h
   simp only [Bool.and_eq_true] at h
   simp [h.1]
